@@ -33,7 +33,7 @@ TRUSTED = [
 ]
 ASSUMPTIONS = [
     'covered Parameter types: Parameter, Number, Integer, String, Tuple, List, Selector; values None/bool/int/half-integer floats/str and flat tuples/lists/dicts of them',
-    'not modelled: Dynamic (callable) defaults, pickle_default_value, per_instance, allow_refs, nested_refs, set_hook, compute_default_fn, is_instance, '
+    'not modelled: Dynamic (callable) defaults, set_hook, compute_default_fn, is_instance, the explicit_no_refs bookkeeping of allow_refs, '
     'the deprecated List.class_ alias is modelled as written but outside the oracle; Selector object lists are not shared between declarations',
     'creation_fails_iff is conditioned on every declaration\'s own constructor having succeeded (constructor-time validation is C01)',
 ]
@@ -44,7 +44,9 @@ RULE = ('corpus + directed prefix (probes p14/p25, diamonds, skipped levels, eve
         'checked by the oracle. non-trivial = at least one merge below a declaring ancestor was checked by the oracle; distinct = distinct canonical case')
 
 SLOTS = [('default', 'default'), ('doc', 'doc'), ('precedence', 'precedence'), ('constant', 'constant'),
-         ('readonly', 'readonly'), ('allow_None', 'allow_None'), ('label', '_label'), ('bounds', 'bounds'),
+         ('readonly', 'readonly'), ('pickle_default_value', 'pickle_default_value'), ('allow_None', 'allow_None'),
+         ('per_instance', 'per_instance'), ('allow_refs', 'allow_refs'), ('nested_refs', 'nested_refs'),
+         ('label', '_label'), ('bounds', 'bounds'),
          ('softbounds', 'softbounds'), ('inclusive_bounds', 'inclusive_bounds'), ('step', 'step'), ('regex', 'regex'),
          ('length', 'length'), ('item_type', 'item_type'), ('class_', 'class_'), ('objects', '_objects'),
          ('check_on_set', 'check_on_set'), ('names', 'names')]
@@ -53,7 +55,8 @@ PTYPES = ['Parameter', 'Number', 'Integer', 'String', 'Tuple', 'List', 'Selector
 TYPE_SLOTS = {'Parameter': [], 'Number': ['bounds', 'softbounds', 'inclusive_bounds', 'step'],
               'Integer': ['bounds', 'softbounds', 'inclusive_bounds', 'step'], 'String': ['regex'],
               'Tuple': ['length'], 'List': ['bounds', 'item_type'], 'Selector': ['objects', 'check_on_set']}
-BASE_ARGS = ['default', 'doc', 'precedence', 'constant', 'readonly', 'allow_None', 'label']
+BASE_ARGS = ['default', 'doc', 'precedence', 'constant', 'readonly', 'allow_None', 'label',
+             'pickle_default_value', 'per_instance', 'allow_refs', 'nested_refs']
 CLS_TAGS = {'int': int, 'float': float, 'str': str}
 
 COVERAGE_TARGETS = (
@@ -64,7 +67,8 @@ COVERAGE_TARGETS = (
     + [f'merge:{t}' for t in PTYPES]
     + [f'tc:{a}->{b}' for a, b in (('Parameter', 'Number'), ('Number', 'Integer'), ('Integer', 'Number'), ('Parameter', 'String'),
                                     ('Parameter', 'Tuple'), ('Parameter', 'List'), ('Parameter', 'Selector'), ('Number', 'Parameter'))]
-    + [f'depth:{d}' for d in (2, 3, 4, 5)])
+    + [f'depth:{d}' for d in (2, 3, 4, 5)]
+    + [f'arg:{a}' for a in ('pickle_default_value', 'per_instance', 'allow_refs', 'nested_refs')])
 
 
 # ------------------------------------------------------------------ values
@@ -481,6 +485,13 @@ def _directed():
     # identity vs equality again: (1, 1) == (True, True), yet `incmax is True` is False, so the bound turns exclusive
     case(lambda i: [C(0, [], D(i, 0, N, default=10, bounds=(0, 10))), C(1, [0], D(i, 0, N, inclusive_bounds=(1, 1))),
                     C(2, [0], D(i, 0, N, inclusive_bounds=(True, True))), C(3, [0], D(i, 0, N, inclusive_bounds=(1, 1), default=9))])
+    # the four plain Parameter slots: inherited like any other; pickle_default_value is in _non_validated_slots,
+    # a changed allow_refs / nested_refs / per_instance forces re-validation of the inherited default
+    case(lambda i: [C(0, [], D(i, 0, N, default=5, bounds=(0, 10), allow_refs=True, per_instance=False, pickle_default_value=False)),
+                    C(1, [0], D(i, 0, N, doc='d')), C(2, [0], D(i, 0, N, allow_refs=False)), C(3, [1], D(i, 0, N, nested_refs=True)),
+                    C(4, [2, 3], D(i, 0, N, pickle_default_value=True)), C(5, [0], D(i, 0, I, per_instance=True)),
+                    C(6, [], D(i, 0, S, default=None)), C(7, [6], D(i, 0, S, pickle_default_value=False)),
+                    C(8, [6], D(i, 0, S, allow_refs=True)), C(9, [6], D(i, 0, Sel, allow_refs=True, objects=[1, 2]))])
     # multiple roots joined
     case(lambda i: [C(0, [], D(i, 0, I)), C(1, [], D(i, 0, N)), C(2, [0, 1], D(i, 0, I)), C(3, [1, 0], D(i, 0, N)),
                     C(4, [0, 1], D(i, 0, N)), C(5, [0, 1])])
@@ -577,7 +588,7 @@ def _rand_value(rng, slot, ptype, pool):
         return rng.choice(['L1', 'L2', None])
     if slot == 'precedence':
         return rng.choice([None, 1, 2, -1, 0.5])
-    if slot in ('constant', 'readonly'):
+    if slot in ('constant', 'readonly', 'pickle_default_value', 'per_instance', 'allow_refs', 'nested_refs'):
         return r() < 0.5
     if slot == 'allow_None':
         return rng.choice([True, False, False])
@@ -597,7 +608,8 @@ def _rand_value(rng, slot, ptype, pool):
 def _rand_decl(rng, ids, name, ptype, pool, first):
     avail = BASE_ARGS + TYPE_SLOTS[ptype]
     weights = {'default': 0.45, 'doc': 0.2, 'precedence': 0.1, 'constant': 0.12, 'readonly': 0.08, 'allow_None': 0.15,
-               'label': 0.1, 'bounds': 0.4, 'softbounds': 0.08, 'inclusive_bounds': 0.15, 'step': 0.12, 'regex': 0.35,
+               'label': 0.1, 'pickle_default_value': 0.05, 'per_instance': 0.05, 'allow_refs': 0.07, 'nested_refs': 0.05,
+               'bounds': 0.4, 'softbounds': 0.08, 'inclusive_bounds': 0.15, 'step': 0.12, 'regex': 0.35,
                'length': 0.2, 'item_type': 0.3, 'objects': 0.6 if first else 0.25, 'check_on_set': 0.2}
     scale = rng.choice([0.5, 1.0, 1.0, 1.6])
     args = {}
@@ -723,6 +735,10 @@ def tags(case, impl):
                     (o['mro'] for o in decl_ops if o['cls'] == b), []))[1:]) for b in par):
                 t.append('shape:skip-level')
                 break
+    for _, d in _decl_map(case):
+        for a in ('pickle_default_value', 'per_instance', 'allow_refs', 'nested_refs'):
+            if a in d['args']:
+                t.append(f'arg:{a}')
     if not isinstance(impl, dict) or 'steps' not in impl:
         return t + ['impl:crash']
     ids_seen = {}
